@@ -15,11 +15,14 @@ RULE = ("every pair (labels, preds) with K = 1..3 classes (thorough 4), length 1
         "arrays and as lists: opf_accuracy, confusion_matrix, opf_accuracy_per_label and purity "
         "are compared with exact rational evaluations of the definitions in the statement; every "
         "matrix over a value alphabet with <= 4 rows and <= 2 columns for normalize (constant "
-        "columns excluded); non-trivial = at least one prediction is wrong (labels != preds) / "
+        "columns excluded), also with columns offset by 1e8, -1e6, 1.6e9 (mean huge relative to the "
+        "spread); two-call histories in which the caller overwrites its label array in place "
+        "between evaluations; non-trivial = at least one prediction is wrong (labels != preds) / "
         "the matrix has >= 2 distinct rows")
 ASSUMPTIONS = [
     "K <= 3 (4), length <= 5 (6); normalize on <= 4 x 2 matrices over 4 values",
-    "float results are compared with the exact rational value at 1e-12 absolute",
+    "float results are compared with the exact rational value at 1e-12 absolute; normalize at 1e-9 "
+    "relative plus the rounding allowance 16*eps*(|mean|+max|x|)/std of the two-pass formula",
 ]
 
 
@@ -43,7 +46,15 @@ def plan(tier, seed):
                 shards.append(("m", 4, L, a, a + 40))
     for r in (1, 2, 3, 4):
         for c in (1, 2):
-            shards.append(("n", r, c))
+            shards.append(("n", r, c, 0))
+    # columns whose mean is huge relative to their spread (cancellation-prone)
+    for alpha in (1, 2, 3):
+        for r in (2, 3, 4):
+            shards.append(("n", r, 1, alpha))
+        shards.append(("n", 3, 2, alpha))
+    # the caller re-uses and overwrites its label array between two evaluations
+    for L in (2, 3, 4):
+        shards.append(("h", L))
     return shards
 
 
@@ -119,7 +130,10 @@ def normalize_case(prog):
         std = float(var) ** 0.5
         for i in range(r):
             want = float(col[i] - mean) / std
-            if not abs(got[i, j] - want) <= 1e-12 * max(1.0, abs(want)):
+            # rounding allowance of the two-pass formula itself: the column mean is rounded
+            # to ~eps*|mean|, which the division by std amplifies
+            slack = 16 * 2.2e-16 * (abs(float(mean)) + max(abs(float(x)) for x in col)) / std
+            if not abs(got[i, j] - want) <= 1e-9 * max(1.0, abs(want)) + slack:
                 return ("normalize(%s)[%d][%d] = %r, (value - column mean) / column std = %r"
                         % (A.tolist(), i, j, float(got[i, j]), want)), "normalize value"
     if got.shape != A.shape:
@@ -127,8 +141,35 @@ def normalize_case(prog):
     return None, None
 
 
+def history_case(prog):
+    """Evaluate on a label array, let the caller overwrite that SAME array in place,
+    evaluate again: the second result must be the definition on the new contents."""
+    import opfython.math.general as g
+    la = np.array(prog["labels1"])
+    pa = np.array(prog["preds"])
+    fns = [("opf_accuracy", g.opf_accuracy), ("confusion_matrix", g.confusion_matrix),
+           ("opf_accuracy_per_label", g.opf_accuracy_per_label), ("purity", g.purity)]
+    for name, fn in fns:
+        la[:] = prog["labels1"]
+        try:
+            fn(la, pa)
+            la[:] = prog["labels2"]
+            got = np.asarray(fn(la, pa), dtype=float)
+            want = np.asarray(fn(np.array(prog["labels2"]), np.array(prog["preds"])), dtype=float)
+        except Exception as ex:
+            return "%s raised %r" % (name, ex), "%s raised" % name
+        if got.shape != want.shape or not np.array_equal(got, want):
+            return ("%s(labels, preds) after the caller overwrote its label array in place (%s -> %s) "
+                    "returned %s, a fresh evaluation of the same values gives %s"
+                    % (name, prog["labels1"], prog["labels2"], got.tolist(), want.tolist())), \
+                "%s depends on earlier calls" % name
+    # and the fresh value itself is the definition (measure_case judges it)
+    return measure_case({"kind": "measures", "K": 2, "labels": prog["labels2"], "preds": prog["preds"]})
+
+
 def run_case(prog):
-    p, sym = (measure_case if prog["kind"] == "measures" else normalize_case)(prog)
+    fn = {"measures": measure_case, "normalize": normalize_case, "history": history_case}[prog["kind"]]
+    p, sym = fn(prog)
     if p:
         return {"check": prog["kind"], "program": prog, "observed": p,
                 "allowed": "value of the definition", "explanation": p,
@@ -159,9 +200,12 @@ def run(shard, seed):
             res.outcome((K, L, lab[:3]))
         if labs:
             res.sample({"kind": "measures", "K": K, "labels": list(labs[0]), "preds": list(labs[0][::-1])}, 1)
-    else:
-        _, r, c = shard
+    elif shard[0] == "n":
+        _, r, c, alpha = shard
         vals = [0.0, 1.0, 2.0, 3.0] if not seed else [0.0, 0.5 * seed, 1.25, -2.0]
+        if alpha:
+            base = {1: 1e8, 2: -1e6, 3: 1.6e9}[alpha]
+            vals = [base + v for v in ([0.0, 1.0, 2.0, 3.0] if alpha != 3 else [0.0, 10.0, 20.0, 45.0])]
         for cells in itertools.product(vals, repeat=r * c):
             M = [list(cells[i * c:(i + 1) * c]) for i in range(r)]
             prog = {"kind": "normalize", "matrix": M}
@@ -176,7 +220,27 @@ def run(shard, seed):
                 res.violations.append(v)
                 if res.full:
                     return res
-        res.outcome(("n", r, c))
+        res.outcome(("n", r, c, alpha))
+        res.sample(prog, 1)
+    elif shard[0] == "h":
+        L = shard[1]
+        labs = [l for l in itertools.product(range(2), repeat=L) if set(l) == {0, 1}]
+        for l1 in labs:
+            for l2 in labs:
+                for pred in itertools.product(range(2), repeat=L):
+                    prog = {"kind": "history", "labels1": list(l1), "labels2": list(l2), "preds": list(pred)}
+                    v = run_case(prog)
+                    res.evaluations += 1
+                    res.states += 1
+                    res.traces += 1
+                    res.transitions += 8
+                    if l1 != l2:
+                        res.nontrivial += 1
+                    if v:
+                        res.violations.append(v)
+                        if res.full:
+                            return res
+        res.outcome(("h", L))
         res.sample(prog, 1)
     return res
 
